@@ -83,14 +83,14 @@ class Analysis:
         self.cache[key] = (b, g)
         return b, g
 
-    def ctx_exit_graph(self, cls, which, count, other=0, threading=True, method="__exit__", exc=False):
+    def ctx_exit_graph(self, cls, which, count, other=0, threading=True, method="__exit__", exc=False, fields=None):
         """Graph of leaving (or entering) a buffering context of ``cls``:
         which = 'obj' (obj.buffered) or 'backend' (cls.buffer_backend()),
         count = value of that context's counter on entry to the call,
         other = value of the other counter."""
         model = self.m(threading)
         cls = model.find_class(cls if isinstance(cls, str) else cls.name)
-        key = ("ctx", cls.qualname, which, count, other, threading, method, exc)
+        key = ("ctx", cls.qualname, which, count, other, threading, method, exc, tuple(sorted((fields or {}).items(), key=lambda kv: kv[0])))
         if key in self.cache:
             return self.cache[key]
         counts = {("T", "buffered"): count if which == "obj" else other, ("C", "_buffer_context"): count if which == "backend" else other}
@@ -110,13 +110,16 @@ class Analysis:
             raise AnalysisError(f"anchor: {cm.args[0].name}.{method} not found")
         b2 = Builder(model, ctx)
         b2.objfields = b.objfields
+        for fk, fv in (fields or {}).items():
+            # state the context object was given before the call (e.g. buffer_backend(capacity) stores the capacity)
+            b2.objfields.setdefault(cm.args[1], {})[fk] = fv
         args = [Val("const", None)] * 3 if method == "__exit__" else []
         if exc and method == "__exit__":
             args = [Val("unknown", "exc")] * 3  # the block is left by an exception
         g = b2.run(v.func, cm, args, {})
         g.live = g.live_nodes()
         g.ctx = ctx
-        g.label = f"{cls.name}.{'buffered' if which == 'obj' else 'buffer_backend()'}.{method}[count={count},other={other}{',exc' if exc else ''}]"
+        g.label = f"{cls.name}.{'buffered' if which == 'obj' else 'buffer_backend()'}.{method}[count={count},other={other}{',exc' if exc else ''}{',' + '+'.join(sorted(fields)) if fields else ''}]"
         self.stats["graphs"] += 1
         self.stats["nodes"] += len(g.live)
         self.cache[key] = (b2, g)
